@@ -194,6 +194,7 @@ theorem goodB_sound (sem : Sem V) (lo : Nat) (pairs : List (String × String × 
     intro h; simp only [goodB, Bool.and_eq_true, List.contains_iff_mem] at h
     exact ⟨hp (c, neg, args.length) h.1.1, argsOk_sound args h.1.2, ih h.2⟩
   | loop body ih => intro h; exact ih h
+  | inl body ih => intro h; exact ih h
   | _ => intro _; trivial
 
 /-- a value semantics on a linear order whose conditions mean what `PV.Props.C01.icCond` says (two operands), and whose
